@@ -85,6 +85,17 @@ pub struct CursorModelStats {
 }
 
 pub fn expect_cursor(case: &CursorCase, entries: &[(Vec<u8>, Vec<u8>)], st: &mut CursorModelStats) -> Vec<Exp> {
+    expect_cursor_with_errs(case, entries, st, &std::collections::BTreeSet::new())
+}
+
+/// `errs`: indices of transcript records that returned an injected-fault Err. Such a call is not
+/// judged and leaves its cursor in the "unspecified" window until the next absolute move or reset.
+pub fn expect_cursor_with_errs(
+    case: &CursorCase,
+    entries: &[(Vec<u8>, Vec<u8>)],
+    st: &mut CursorModelStats,
+    errs: &std::collections::BTreeSet<usize>,
+) -> Vec<Exp> {
     let mut x = expect_open(entries.len(), case.spec.knobs.codec, case.v1);
     let n = entries.len();
     let mut curs = vec![MCur { pos: None, unspec: false }];
@@ -96,6 +107,12 @@ pub fn expect_cursor(case: &CursorCase, entries: &[(Vec<u8>, Vec<u8>)], st: &mut
         }
         let mut c = curs[idx];
         let mut abs = |c: &mut MCur, name: &str, r: Option<usize>, x: &mut Vec<Exp>, st: &mut CursorModelStats| {
+            if errs.contains(&x.len()) {
+                c.unspec = true;
+                st.unjudged += 1;
+                x.push((name.to_string(), None));
+                return;
+            }
             if c.unspec {
                 st.abs_from_window += 1;
             }
@@ -113,6 +130,9 @@ pub fn expect_cursor(case: &CursorCase, entries: &[(Vec<u8>, Vec<u8>)], st: &mut
             x.push(e(name, ent(entries, r)));
         };
         let rel = |c: &mut MCur, name: &str, fwd: bool, x: &mut Vec<Exp>, st: &mut CursorModelStats| {
+            if errs.contains(&x.len()) {
+                c.unspec = true;
+            }
             if c.unspec {
                 st.unjudged += 1;
                 x.push((name.to_string(), None));
@@ -298,7 +318,14 @@ pub fn expect_merge(case: &MergeCase, sources: &[Vec<(Vec<u8>, Vec<u8>)>], sink_
 
 /// Compares a transcript with its expectation. Returns (index, oracle id, message) of the first mismatch.
 pub fn compare(recs: &[Rec], exp: &[Exp]) -> Option<(usize, String, String)> {
+    compare_allowing(recs, exp, &std::collections::BTreeSet::new())
+}
+
+pub fn compare_allowing(recs: &[Rec], exp: &[Exp], allowed_errs: &std::collections::BTreeSet<usize>) -> Option<(usize, String, String)> {
     for (i, r) in recs.iter().enumerate() {
+        if allowed_errs.contains(&i) && r.res.is_err() {
+            continue;
+        }
         if let Res::Panic(m) = &r.res {
             return Some((i, format!("panic.{}", r.op), format!("call #{} {} panicked: {}", i, r.op, m)));
         }
